@@ -3,7 +3,7 @@ import os, sys, json
 sys.path.insert(0, os.path.join(os.path.dirname(os.path.abspath(__file__)), '..', 'lib'))
 import vcommon as V
 
-PROPS = ['props/C12.v', 'props/C12_src.v']
+PROPS = ['props/C12.v', 'props/C12_src.v', 'props/Lint.v']
 ASSUMPTIONS = [
     "JSON lexing is encoding/json's: the loader model (model/Loader.v) starts from the parsed tree (objects as member lists in "
     "document order, duplicates kept; strings unquoted; numbers as integer literal or other literal); a file that is not "
